@@ -154,7 +154,10 @@ PROPS = {
         "assumptions": COMMON_ASSUME + ["name expiry is driven by overriding the context height (RNS handlers read only ctx.BlockHeight())"],
     },
     "C01": {
-        "family": "sd", "formulas": ["C01_Listed", "C01_NoEffect", "C01_Paid"], "nt": "C01",
+        "family": "sd", "formulas": ["C01_Listed", "C01_NoEffect", "C01_Paid", "C14_Quorum"], "nt": "C01",   # C14_Quorum: the "completed attestation quorum" clause of C01
+        # a fifth parameter variant with dense attestation / report traffic (repeated and foreign signatures) for that clause
+        "extra_variants": [{"vh_cfg": {"honest": "p1", "I": 3, "C": 4, "cs": 2, "fs": 2, "min": 2, "mode": "forms"},
+                            "sim_subst": {"PI": "3", "PC": "4", "PCS": "2", "PFS": "2", "PMIN": "2"}}],
         "mc_cfg": {"quick": ["SD-mc-rewards-quick.cfg"], "thorough": ["SD-mc-rewards-quick.cfg", "SD-mc-rewards-thorough.cfg"]},
         "bug_variants": [("addprover", ["C01_Listed", "PC01a", "PC01b"], "SD-mc-rewards-quick.cfg")],
         "rule": "non-trivial = a post-proof step whose payload is NOT a valid proof of the stored challenge (junk, other file, bit flip, "
